@@ -66,7 +66,7 @@ CHECKS = {
         "runs": [dict(STORAGE, entries=["H01Prune"], bounds_quick={"recs": 3, "maxver": 97, "maxhist": 4, "nstatus": 4}, bounds_thorough={"recs": 3, "maxver": 997, "maxhist": 6, "nstatus": 5}),
                  dict(ACTION, entries=["H01Hist", "H01Crash"], bounds_quick={"depth": 2, "faults": 1, "crashes": 0, "maxhist": 2}, bounds_thorough={"depth": 2, "faults": 1, "crashes": 0, "maxhist": 3},
                       limits={"max_instrs": 20000000, "max_decisions": 2000}),
-                 dict(ACTION, entries=["H01Hist"], tiers=["thorough"], bounds_thorough={"depth": 3, "faults": 1, "crashes": 0, "maxhist": 1, "slimflags": 1},
+                 dict(ACTION, entries=["H01Hist"], tiers=["thorough"], bounds_thorough={"depth": 3, "faults": 0, "crashes": 0, "maxhist": 2, "slimflags": 1},
                       limits={"max_instrs": 30000000, "max_decisions": 3000})],
         "bounds": {}, "assumptions": [],
     },
@@ -76,7 +76,7 @@ CHECKS = {
         "bounds": {}, "assumptions": [],
     },
     "C03": {
-        "runs": [dict(ACTION, entries=["H03Hist", "H03AtomicAfterFailed"], bounds_quick={"depth": 2, "faults": 1, "crashes": 0, "maxhist": 1}, bounds_thorough={"depth": 2, "faults": 2, "crashes": 0, "maxhist": 2},
+        "runs": [dict(ACTION, entries=["H03Hist", "H03AtomicAfterFailed"], bounds_quick={"depth": 2, "faults": 1, "crashes": 0, "maxhist": 1}, bounds_thorough={"depth": 2, "faults": 1, "crashes": 0, "maxhist": 3},
                       limits={"max_instrs": 20000000, "max_decisions": 2000})],
         "bounds": {}, "assumptions": [],
     },
